@@ -125,7 +125,24 @@ def r1_unpark_enqueue(ctx):
                              % path_desc(body, [bi] + w2), loc)
                 continue
             ctx.ok(R, site, "push_back(queue, %s) on every non-error was-parked path; unreachable when not parked" % flow.canon_str(id_c), loc)
-    ctx.floor(R, "parked-set removals", n, 7)
+    ctx.floor(R, "parked-set removals", n, 4)
+    # every wake-up entry point still unparks (directly or through a callee): a deleted removal is invisible to the pairing rule above
+    expected = {"notify_spawn": "spawning", "notify_result": "selecting", "notify_message": "selecting", "notify_effect_completion": "effecting",
+                "mark_active": "selecting", "check_expired_timeouts": "selecting"}
+    removed_in = {}
+    for body in F.bodies(crate="quiver_core"):
+        flow = Flow(body)
+        for bi, t, f in field_calls(ctx, body, flow, ("HashSet::remove",), EXEC, PARKED):
+            removed_in.setdefault(body.key.split("::{closure")[0], set()).add(f)
+    for fn_name, pset in expected.items():
+        key = EXEC + "::" + fn_name
+        F.fn(key)
+        reach = F.reach([key])
+        sets = set()
+        for k in reach:
+            sets |= removed_in.get(k.split("::{closure")[0], set())
+        ctx.check(pset in sets, R, "%s|unparks(%s)" % (key, pset), "the wake-up entry point removes the process from `%s` (and the pairing rule covers the enqueue)" % pset,
+                  "%s no longer removes the woken process from `%s`: a process parked there is never made runnable by this event (lost wake-up)" % (fn_name, pset))
 
 
 def r2_park_dequeue(ctx):
